@@ -26,6 +26,7 @@ inductive MOp
   | brTrue (l : Loc) (k : Nat)  -- read flag `l`; jump to `k` if set
   | jmp (k : Nat) | ctxCheck | ret
   | callBody | send | selectRecv | resend | cancelCtx | mkChans | spawn
+  | unknown                     -- a construct the fact extractor does not understand
   deriving DecidableEq, Repr
 
 abbrev Program := List MOp
@@ -79,6 +80,25 @@ def progFixed : OpName → Program
   | .cancel => cancelFixed | .derefF => derefFFixed | .isDone => isDoneFixed
   | .isCancelled => isCancelledFixed
 
+/-! ### static lock discipline (facts regenerated from the source: Generated/Sync.lean) -/
+
+inductive Held | w (m : Mu) | r (m : Mu) deriving DecidableEq, Repr
+
+/-- one syntactic access to a shared field, with the locks held at that point -/
+structure Access where
+  fn : OpName
+  loc : Loc
+  isWrite : Bool
+  held : List Held
+  deriving DecidableEq, Repr
+
+/-- `Val`/`version` are guarded by the atom's RWMutex (writes need the write lock), the flags by `mu` -/
+def Access.guarded (a : Access) : Bool :=
+  match a.loc with
+  | .val | .ver =>
+    a.held.contains (.w .atomRW) || (!a.isWrite && a.held.contains (.r .atomRW))
+  | .done | .cancelled => a.held.contains (.w .futMu)
+
 /-- the programs the theorems are about -/
 def prog : OpName → Program := progFixed
 
@@ -131,6 +151,18 @@ inductive LinEv
   | set (t a v : Nat)           -- reset! installed v
   | cas (t a old new : Nat)     -- swap! replaced old by new
   | failed (t a : Nat)          -- swap! whose function failed
+
+/-- the sequential atom object: what each linearization event demands of, and does to, the values -/
+def applyEv (cur : Nat → Nat) : LinEv → Option (Nat → Nat)
+  | .read _ a v => if cur a = v then some cur else none
+  | .set _ a v => some (fun b => if b = a then v else cur b)
+  | .cas _ a old new => if cur a = old then some (fun b => if b = a then new else cur b) else none
+  | .failed _ _ => some cur
+
+/-- a log of linearization events is a legal sequential history from `cur` -/
+def replay : List LinEv → (Nat → Nat) → Option (Nat → Nat)
+  | [], cur => some cur
+  | e :: es, cur => (applyEv cur e).bind (replay es)
 
 structure Thread where
   stack : List Frame := []
